@@ -20,7 +20,7 @@ ASSUMPTIONS = [
     "object-valued fields are compared by identity with the pool objects; integer fields by proxy identity in the symbolic "
     "run and by value on plain replay; the number of instances must equal the number of satisfying assignments",
 ]
-BOUNDS = {"quick": dict(domains="2x2 / 3", head_fields="<=3 incl. nested constructor and constants", bodies="L<=2 with or/not"),
+BOUNDS = {"quick": dict(domains="2x2 / 3", head_fields="<=3 incl. nested constructor and constants", bodies="L<=2 with or/not; every comparison operator negated"),
           "thorough": dict(domains="3x2 / 3", head_fields="<=3", bodies="L<=3 sampled")}
 LIMITS = {"quick": dict(max_paths=8000, max_wall=90), "thorough": dict(max_paths=60000, max_wall=400)}
 FIDELITY_EVERY = {"quick": 3, "thorough": 2}
@@ -177,6 +177,14 @@ def shapes(tier, seed):
         # conclusion takes one value per body solution; what an unbound variable means there is C12's business, not C11's)
         for b in (J[3], ["and", J[0], SY[0]], ["and", SX[0], J[3]], ["not", J[4]]):
             out.append(dict(BASE2, head=h, cond=b, spelling="add"))
+    # negated bodies: every comparison operator under not_, a negated conjunction and a double negation
+    for i, op in enumerate(("lt", "le", "gt", "ge", "eq", "ne")):
+        neg = ["not", ["cmp", op, ["a", "x", "a"], ["a", "y", "a"]]]
+        out.append(dict(BASE2, head=heads2()[i % len(heads2())], cond=neg))
+        out.append(dict(BASE1, head=heads1()[i % len(heads1())], cond=["not", ["cmp", op, ["a", "x", "a"], ["a", "x", "b"]]]))
+    out.append(dict(BASE2, head=heads2()[0], cond=["not", ["and", SX[0], J[3]]]))
+    out.append(dict(BASE2, head=heads2()[1], cond=["not", ["or", SY[0], ["cmp", "gt", ["a", "x", "b"], ["a", "y", "b"]]]]))
+    out.append(dict(BASE2, head=heads2()[0], cond=["not", ["not", SX[0]]]))
     # three variables: chains where the right conjunct introduces a variable the left does not bind
     B3 = dict(pools={"X": 2, "Y": 2, "W": 2}, classes={"W": "Other"}, refs={"X": "Y"}, vars={"x": "X", "y": "Y", "w": "W"},
               select=[["v", "x"], ["v", "y"], ["v", "w"]])
